@@ -27,8 +27,10 @@ from ..refmodels import shapes as sh
 RULE = ('primitives: grid class (odd/even, square/non-square, several samplings) x primitive x parameter class (size on / off '
         'a grid line, centred / offset, rotation 0 / special / random of either sign, sides 3..12, vanes 1..8); apertures: '
         'grid class x rings 1..4 x orientation x exclusion-set class (none, centre, random subset, all-but-one) x gap x basis '
-        '(Zernike r,t / XY x,y, 1..6 terms); keystones: rings 1..3 x segments-per-ring scalar/list x gaps x ring rotation '
-        'class; a case is non-trivial when the mask has both values; distinct = distinct descriptor')
+        '(Zernike r,t / XY x,y, 1..6 terms); keystones: rings 1..3 x segments-per-ring scalar/list (1..15, one-segment rings '
+        'in every tier) x ring widths scalar/list x azimuthal gap class (default, narrow, wide, both gaps wide) x ring rotation '
+        'class (default 360/n, 0, scalar / list in [0,180], outside [0,180]) x basis pair; apertures that fit the grid and '
+        'apertures that overfill it; a case is non-trivial when the mask has both values; distinct = distinct descriptor')
 ASSUMPTIONS = ['size conventions measured on the pinned tree: circle/annulus radius, polygon circumradius, rectangle half-width / '
                'half-height, ellipse semi-axes, spider full vane width; the statement does not fix a rotation sense, either is '
                'accepted but it must not change during a run',
@@ -36,7 +38,14 @@ ASSUMPTIONS = ['size conventions measured on the pinned tree: circle/annulus rad
                'joggled Delaunay triangulation may decide them either way)',
                'grids are (arange(n) - n//2)*dx (C04 convention); segment gaps >= 0.5 dx so that neighbouring closed shapes '
                'cannot share a sample',
-               'a keystone segment is the part of segment_masks[k] that transmits in amp (the azimuthal gap is cut out of amp only)']
+               'a keystone segment is the part of segment_masks[k] that transmits in amp (the azimuthal gap is cut out of amp only); '
+               'ring j spans (previous outer radius + radial_gap, + ring_radius] as documented; its area is the annular sector '
+               'minus a half strip of width azimuthal_gap/2 along each radial side',
+               '"area to within the rasterisation of the boundary" is taken as |N dx^2 - A| <= perimeter*dx, and for hexagonal '
+               'segments additionally per sample: no disagreement with the analytic hexagon farther than one sample pitch from '
+               'its boundary (closer disagreements are counted as events, not violations)',
+               'OPD bases are not prepared for overfilling apertures that leave a segment window empty or one sample wide '
+               '(prysm normalises by the window extent there); counted as excluded']
 REQUIRED = ['circle.membership', 'annulus.membership', 'regular_polygon.membership', 'rectangle.membership',
             'rotated_ellipse.membership', 'spider.membership', 'offset_circle.membership',
             'primitive.monotone', 'primitive.symmetry',
@@ -633,7 +642,12 @@ def _run_keystone(ctx):
         fill = float(r.uniform(0.6, 0.97)) if r.random() < 0.85 else float(r.uniform(1.05, 1.3))
         ccd = float(r.uniform(0.2, 0.45)) * 2 * half * fill
         rgap = float(r.uniform(0.5, 3.0)) * dx
-        agap = None if r.random() < 0.4 else float(r.uniform(0.5, 4.0)) * dx
+        u = r.random()
+        agap = None if u < 0.35 else float(r.uniform(0.5, 4.0)) * dx if u < 0.75 else float(r.uniform(6.0, 12.0)) * dx
+        if k % 6 == 5:
+            # both gaps wide, azimuthal < 2 * radial: a gap of the wrong width is visible to the area law in this class
+            rgap = float(r.uniform(4.0, 6.0)) * dx
+            agap = float(r.uniform(1.5, 1.95)) * rgap
         ring_w = (half * fill - ccd / 2) / rings - rgap
         if ring_w < 5 * dx:
             ctx.skip('keystone: ring narrower than 5 samples for this grid/ring count (not generated)')
@@ -662,11 +676,16 @@ def _run_keystone(ctx):
         desc = {'wl': 'keystone', 'grid': (n0, n1), 'dx': dx, 'center_circle_diameter': ccd, 'rings': rings, 'ring_radius': ring_radius,
                 'segments_per_ring': spr, 'radial_gap': rgap, 'azimuthal_gap': agap, 'rotation_per_ring': rotation, 'seed': sub,
                 'class': f'keystone:{grid_class(n0, n1)}:rings={rings}:spr={spr_mode}:rr={rr_mode}:rot={rot_mode}:'
-                         f'agap={"default" if agap is None else "given"}:{"fits" if fill < 1 else "overfills"}'}
+                         f'agap={"default" if agap is None else "given" if agap < 5 * dx else "wide"}:{"fits" if fill < 1 else "overfills"}'}
         # effective ring rotation (None -> 360/n, prysm's documented default) outside [0, 180] degrees is its own class
         rl = rotation if isinstance(rotation, list) else [rotation] * rings
         eff = [360.0 / n if v is None else v for v, n in zip(rl, spr_list)]
         desc['kclass'] = '/rot=outside-0..180' if any(v < 0 or v > 180 for v in eff) else ''
+        if desc['kclass'] and agap is not None and agap > 1.8 * rgap:
+            # keep the two classes with a defect of their own on the pinned tree disjoint (wide azimuthal gap | rotation range)
+            agap = 1.8 * rgap
+            desc['azimuthal_gap'] = agap
+            desc['class'] = desc['class'].replace('agap=wide', 'agap=given')
         desc['class'] += ':' + ('n=1' if min(spr_list) == 1 else 'n<=3' if min(spr_list) <= 3 else 'n<=6' if min(spr_list) <= 6 else 'n>6')
         ctx.case(desc)
         x, y = grid(n0, n1, dx)
@@ -696,6 +715,28 @@ def _keystone_clip_diagnosis(ap, s, polar, ri, ro, shape):
     inwin[w] = True
     clipped = missing & ~inwin
     return 'clipped-by-window' if clipped.sum() > 0 and clipped.sum() >= 0.5 * missing.sum() else ''
+
+
+def _keystone_gap_diagnosis(ap, s, polar, trans, agap, dx, shape):
+    """True when segment s still transmits samples that are clearly (more than one sample) inside the gap strip of half
+    width agap/2 along one of its own two radial edges (the edges are taken from the angular hull of the segment's mask)."""
+    rr, tt = polar
+    w = ap.segment_windows[s]
+    full = _full(shape, w, ap.segment_masks[s])
+    if not full.any():
+        return False
+    ang = np.sort(tt[full])
+    gaps = np.diff(np.concatenate([ang, ang[:1] + 2 * np.pi]))
+    g = int(np.argmax(gaps))
+    start = ang[(g + 1) % ang.size]
+    end = ang[g]
+    T = _full(shape, w, trans)
+    left = 0
+    for edge in (start, end):
+        d = tt - edge
+        perp = rr * np.abs(np.sin(d))
+        left += int((T & (np.cos(d) > 0) & (perp < agap / 2 - dx)).sum())
+    return left > 0
 
 
 def _check_keystone(ctx, ap, r, x, y, dx, ccd, rings, rr_list, spr_list, rgap, agap, desc):
@@ -746,16 +787,27 @@ def _check_keystone(ctx, ap, r, x, y, dx, ccd, rings, rr_list, spr_list, rgap, a
                 N = int(trans[s + 1].sum())
                 if A <= P * dx:
                     ctx.skip('keystone.area: azimuthal gap leaves less than the raster bound of the segment (not compared)')
+                elif nseg_r > 2 and 2 * math.asin(min(1.0, (agap / 2) / ri)) >= 2 * math.pi / nseg_r:
+                    # the two gap strips of a segment meet at its inner edge: the closed-form area would subtract the
+                    # common part twice
+                    ctx.skip('keystone.area: gap strips of the two sides meet inside the segment (not compared)')
                 else:
                     ctx.observe('keystone.area')
                     if abs(N * dx * dx - A) > P * dx:
                         if polar is None:
                             polar = (np.hypot(x, y), np.arctan2(y, x))
                         # a *deficit* is diagnosed (arc cut by the window); anything else keeps the label of its class
-                        mech = '' if N * dx * dx > A else _keystone_clip_diagnosis(ap, s, polar, ri, ro, shape)
+                        if N * dx * dx > A:
+                            mech = ''
+                            if agap > 2 * rgap and _keystone_gap_diagnosis(ap, s, polar, trans[s + 1], agap, dx, shape):
+                                mech = 'azimuthal-gap>2*radial-gap/gap-not-fully-cut'
+                        else:
+                            mech = _keystone_clip_diagnosis(ap, s, polar, ri, ro, shape)
                         ctx.violation('C18/keystone/segment-area' + (('/' + mech) if mech else kc),
                                       'transmitting area of a keystone segment differs from (sector - gap strips) by more than '
-                                      'perimeter*dx' + (' (the outer arc bulges out of the segment window and is cut off)' if mech else ''),
+                                      'perimeter*dx' + (' (the outer arc bulges out of the segment window and is cut off)'
+                                                        if mech == 'clipped-by-window' else
+                                                        ' (the gap strip between segments is cut narrower than azimuthal_gap)' if mech else ''),
                                       desc, ring=ring, segment=s, got=N * dx * dx, want=A, bound=P * dx)
             else:
                 ctx.skip('keystone.area: ring cut by the edge of the grid (area not compared)')
